@@ -62,6 +62,6 @@ def run(ctx):
                       'observable = ordered handler call log; non-trivial = contains at least one valid request; distinct by value', calls)
     if not ctx.replay:
         need = ['invalid:length', 'invalid:limit', 'invalid:overflow', 'invalid:coil-value', 'unsupported', 'valid:fc15', 'valid:fc16', 'valid:fc5', 'valid:fc6',
-                'handler-calls:read-runs', 'handler-calls:write-single', 'handler-calls:write-multiple', 'sessions:with-authorization']
+                'handler-calls:read-runs', 'handler-calls:write-single', 'handler-calls:write-multiple', 'sessions:with-authorization', 'sessions:with-shared-handler-object']
         missing = [k for k in need if cl.get(k, 0) < 3]
         ctx.oblige('generator-reaches-expected-classes', not missing, 'missing: ' + ','.join(missing))
